@@ -173,8 +173,8 @@ fn check_insert(enc: &'static Encoding, content: &str, html: bool) -> Option<Str
 }
 
 /// meta charset: at most one switch, only for later tokens, sink notified in between.
-fn check_meta(enc0: &'static Encoding, label: &str, second_label: Option<&str>, cuts: &[usize], scan_mode: bool) -> Option<String> {
-    let unit0: Vec<u8> = vec![0xE9];
+fn check_meta(enc0: &'static Encoding, label: &str, second_label: Option<&str>, cuts: &[usize], scan_mode: bool, unit: &[u8]) -> Option<String> {
+    let unit0: Vec<u8> = unit.to_vec();
     let labels: Vec<&str> = std::iter::once(label).chain(second_label).collect();
     // document: T0 <meta l1> T1 [<meta l2> T2]
     let mut d = b"A".to_vec();
@@ -211,6 +211,9 @@ fn check_meta(enc0: &'static Encoding, label: &str, second_label: Option<&str>, 
     // the switch must be flushed by the meta tag itself, not by the next captured token
     let first = if scan_mode { HSpec::obs(HKind::Element, "p[id]") } else { HSpec::obs(HKind::DocText, "") };
     let p = Prepared::new(Cfg { adjust_charset: true, ..Cfg::with(vec![first, HSpec::with_ops(HKind::DocEnd, "", vec![Op::Append("\u{416}".into(), true)])]).enc(enc0.name()) }).ok()?;
+    if cuts.iter().any(|c| *c >= d.len()) {
+        return None;
+    }
     let chunks = split(&d, cuts);
     let rr = run(&p, &chunks, true);
     if !rr.all_ok() {
@@ -292,7 +295,8 @@ pub fn replay(case: &Value) -> Option<String> {
         "insert" => check_insert(enc, case["content"].as_str()?, case["html"].as_bool()?),
         "meta" => {
             let cuts: Vec<usize> = serde_json::from_value(case["cuts"].clone()).ok()?;
-            check_meta(enc, case["label"].as_str()?, case["label2"].as_str(), &cuts, case["scan_mode"].as_bool().unwrap_or(false))
+            let unit = case["unit"].as_str().map(unhex).unwrap_or_else(|| vec![0xE9]);
+            check_meta(enc, case["label"].as_str()?, case["label2"].as_str(), &cuts, case["scan_mode"].as_bool().unwrap_or(false), &unit)
         }
         _ => None,
     }
@@ -448,29 +452,29 @@ pub fn run_check(ctx: &Ctx) -> i32 {
     for enc0 in [encoding_rs::UTF_8, encoding_rs::WINDOWS_1252, encoding_rs::KOI8_R] {
         for l in labels {
             for l2 in [None, Some("windows-1251"), Some("gbk")] {
-                let doc_len = 60;
-                let mut cutsets: Vec<Vec<usize>> = vec![vec![]];
-                cutsets.extend((1..doc_len).map(|c| vec![c]));
-                for cuts in cutsets {
-                    ctx.exec(cuts.len() + 2);
-                    ctx.validated(1);
-                    // cuts beyond the document are dropped
-                    let real_len = 2 + format!("<meta charset={l}>").len() + 2 + l2.map(|x: &str| format!("<meta charset=\"{x}\">").len() + 2).unwrap_or(0);
-                    if cuts.iter().any(|c| *c >= real_len) {
-                        continue;
-                    }
-                    for scan_mode in [false, true] {
-                        if let Some(msg) = check_meta(enc0, l, l2, &cuts, scan_mode) {
-                            let case = json!({"kind": "meta", "encoding": enc0.name(), "label": l, "label2": l2, "cuts": cuts, "scan_mode": scan_mode});
-                            let c2 = case.clone();
-                            ctx.violation(msg, case, &|| replay(&c2));
+                // the non-ASCII unit of every text node: a byte that is malformed UTF-8, and byte
+                // pairs that are well-formed in UTF-8 AND in the legacy encodings (a decoder that
+                // keeps reading UTF-8 after the switch gives a different string)
+                for unit in [&[0xE9u8][..], &[0xC3, 0xA9], &[0xDF, 0xAB], &[0x83, 0x41]] {
+                    let doc_len = 2 * unit.len() + 4 + format!("<meta charset={l}>").len() + l2.map(|x: &str| format!("<meta charset=\"{x}\">").len() + 1 + unit.len()).unwrap_or(0);
+                    let mut cutsets: Vec<Vec<usize>> = vec![vec![]];
+                    cutsets.extend((1..doc_len).map(|c| vec![c]));
+                    for cuts in cutsets {
+                        ctx.exec(cuts.len() + 2);
+                        ctx.validated(1);
+                        for scan_mode in [false, true] {
+                            if let Some(msg) = check_meta(enc0, l, l2, &cuts, scan_mode, unit) {
+                                let case = json!({"kind": "meta", "encoding": enc0.name(), "label": l, "label2": l2, "cuts": cuts, "scan_mode": scan_mode, "unit": hex(unit)});
+                                let c2 = case.clone();
+                                ctx.violation(msg, case, &|| replay(&c2));
+                            }
                         }
                     }
                 }
             }
         }
     }
-    ctx.level_done("(c) 3 initial encodings x 7 meta charset labels x {single, followed by a second declaration} x {text captured, tag-scan mode} x every cut");
+    ctx.level_done("(c) 3 initial encodings x 7 meta charset labels x {single, followed by a second declaration} x {text captured, tag-scan mode} x 4 non-ASCII units (malformed in UTF-8 / well-formed in UTF-8 and in the legacy encodings) x every cut");
     ctx.finish(
         "model_checking",
         RULE,
